@@ -21,6 +21,10 @@ def tsV6 (U : Nat) : Nat := bits U 127 96 * 2 ^ 28 + bits U 95 80 * 2 ^ 12 + bit
 def msV7 (U : Nat) : Nat := bits U 127 80
 /-- §5.1: var(2) clock_seq(14) -/
 def clockSeq (U : Nat) : Nat := bits U 61 48
+/-- DCE 1.1 (v2): the clock_seq_low octet carries the local domain, so the clock sequence is the 6 bits below the variant -/
+def clockSeqV2 (U : Nat) : Nat := bits U 61 56
+/-- DCE 1.1 (v2): the time_low field carries the local identifier, so the timestamp has only time_mid and time_hi -/
+def tsV2 (U : Nat) : Nat := bits U 75 64 * 2 ^ 48 + bits U 95 80 * 2 ^ 32
 def node (U : Nat) : Nat := bits U 47 0
 def dceId (U : Nat) : Nat := bits U 127 96
 def dceDomain (U : Nat) : Nat := bits U 55 48
@@ -47,6 +51,7 @@ def description (U : Nat) : String :=
     | 5 => "UUID v5 (SHA1)"
     | 6 => "UUID v6 (reordered Gregorian time)"
     | 7 => "UUID v7 (Unix epoch time)"
+    | 8 => "UUID v8 (custom)"              -- §5.8
     | _ => "UUID (unknown type)"
 
 -- textual forms (RFC 9562 §4 canonical; plus braced, URN (RFC 9562 §4 / RFC 8141, case-insensitive
